@@ -166,6 +166,96 @@ def oracle(ctx, case, res, real):
                 ctx.count("routing-checked")
 
 
+STAGES = [("-u", "-U"), ("--nextseq-trim",), ("-q", "-Q"),
+          ("-a", "-g", "-b", "-A", "-G", "-B", "-e", "-O", "--no-indels", "--action", "--times", "--pair-adapters", "--revcomp"),
+          ("--poly-a",), ("-l", "-L"), ("--trim-n",), ("--length-tag",), ("--strip-suffix",), ("-x", "-y"), ("--zero-cap",)]
+
+
+def stepwise_oracle(ctx, case, real):
+    """"every step seeing exactly the output of the previous one": the run with all options at once must equal a chain of runs, one per
+    documented stage in the documented order, each fed with the output files of the previous one"""
+    if "error" in real or not case.get("stepwise"):
+        return
+    groups = option_groups([t for t in case["argv"] if t != "--no-index"])
+    r1, r2 = case["reads1"], case["reads2"]
+    for stage in STAGES:
+        opts = [t for g in groups if g[0] in stage for t in g]
+        if not opts:
+            continue
+        outs = ["-o", "{dir}/o1.fastq"] + (["-p", "{dir}/o2.fastq"] if case["paired"] else [])
+        c = dict(argv=["--no-index"] + opts + outs, paired=case["paired"], reads1=r1, reads2=r2, with_qual=True, interleaved_in=False)
+        _, rr = pipe.run_real(c)
+        if "error" in rr:
+            return
+        r1 = [tuple(x) for x in rr["files"].get("o1.fastq", [])]
+        r2 = [tuple(x) for x in rr["files"].get("o2.fastq", [])] if case["paired"] else None
+    got1 = [tuple(x) for x in real["files"].get("o1.fastq", [])]
+    got2 = [tuple(x) for x in real["files"].get("o2.fastq", [])] if case["paired"] else None
+    ctx.count("stepwise-checked")
+    if (got1, got2) != (r1, r2):
+        bad = [(a, b) for a, b in zip(got1 + (got2 or []), r1 + (r2 or [])) if a != b][:3]
+        ctx.failures.append(Failure("C10/not-the-composition-of-the-stages", "the result differs from applying the documented stages one after the other "
+                                    "(cut, NextSeq, quality, adapters, poly-A, length, trim-n, length-tag, strip-suffix, prefix/suffix, zero-cap), each on "
+                                    "the output of the previous one", case_input(case), [x[0] for x in bad], [x[1] for x in bad]))
+
+
+def directed_stepwise(ctx):
+    rng = ctx.rng
+    cases = []
+    for _ in range(ctx.scale(60, 1200)):
+        paired = rng.random() < 0.6
+        argv = ["--no-index"]
+        def maybe(p, toks):
+            if rng.random() < p:
+                argv.extend(toks)
+                return True
+            return False
+        if maybe(0.5, ["-u", str(rng.choice([1, 3, -2, 5]))]):
+            maybe(0.3, ["-u", str(-int(argv[-1]))])
+        if paired:
+            maybe(0.35, ["-U", str(rng.choice([2, -3]))])
+        maybe(0.25, ["--nextseq-trim", "20"])
+        if maybe(0.4, ["-q", rng.choice(["10", "15,10", "20"])]) and paired:
+            maybe(0.4, ["-Q", rng.choice(["0", "25", "5,30"])])
+        has_ad = False
+        if rng.random() < 0.8:
+            has_ad = True
+            if paired and rng.random() < 0.4:
+                argv.extend(["-a", "a0=GATTACAGA", "-A", "b0=AAAGGGCCC"])
+                if rng.random() < 0.5:
+                    argv.extend(["-a", "a1=TTAGGCATC", "-A", "b1=CCGGTTAAC"])
+                argv.append("--pair-adapters")
+            else:
+                argv.extend([rng.choice(["-a", "-g", "-b"]), "a0=GATTACAGA"])
+                if paired and rng.random() < 0.6:
+                    argv.extend([rng.choice(["-A", "-G"]), "b0=AAAGGGCCC"])
+                if rng.random() < 0.35:
+                    argv.append("--revcomp")
+                elif rng.random() < 0.3:
+                    argv.extend(["--times", "2"])
+            maybe(0.3, ["--action", rng.choice(["mask", "trim", "none", "lowercase"])])
+        maybe(0.25, ["--poly-a"])
+        if paired:
+            x = rng.random()
+            if x < 0.25:
+                argv.extend(["-l", str(rng.choice([12, -8, 20]))])
+            elif x < 0.5:
+                argv.extend(["-L", str(rng.choice([10, -6, 25]))])
+            elif x < 0.65:
+                argv.extend(["-l", "15", "-L", "9"])
+        else:
+            maybe(0.4, ["-l", str(rng.choice([12, -8, 20]))])
+        maybe(0.3, ["--trim-n"])
+        maybe(0.15, ["--length-tag", "length="])
+        maybe(0.15, ["--strip-suffix", rng.choice(["0:1", ":1"])])
+        maybe(0.15, rng.choice([["-x", "P_"], ["-y", "_s"]]))
+        maybe(0.2, ["--zero-cap"])
+        argv += ["-o", "{dir}/o1.fastq"] + (["-p", "{dir}/o2.fastq"] if paired else [])
+        r1, r2 = pipe.gen_reads(rng, 6, ["GATTACAGA", "TTAGGCATC"], ["AAAGGGCCC", "CCGGTTAAC"], paired, True, "--revcomp" in argv)
+        cases.append(dict(argv=argv, paired=paired, reads1=r1, reads2=r2, with_qual=True, interleaved_in=False, stepwise=True))
+    return cases
+
+
 def directed(ctx):
     rng = ctx.rng
     cases = []
@@ -203,14 +293,21 @@ def run(ctx):
                  "random subsets of the read-modifying options (single and paired) with a random permutation of the option tokens, plus directed single-end cases "
                  "without adapters compared with a reference composition on reads where adjacent stages interact, plus one-sided paired cases (routing); "
                  "non-trivial = distinct modifier class sequence with more than two stages", nontrivial=lambda c, r: False)
-    for case, res, real, model in pipe.run_cases(ctx, directed(ctx)):
+    for case, res, real, model in pipe.run_cases(ctx, directed(ctx) + directed_stepwise(ctx)):
         ctx.count("directed")
         oracle(ctx, case, res, real)
+        stepwise_oracle(ctx, case, real)
 
 
 def extended_search(ctx):
-    for case, res, real, model in pipe.run_cases(ctx, [c for _ in range(4) for c in directed(ctx)]):
+    for case, res, real, model in pipe.run_cases(ctx, [c for _ in range(4) for c in directed(ctx) + directed_stepwise(ctx)]):
         oracle(ctx, case, res, real)
+        stepwise_oracle(ctx, case, real)
 
 
-replay = pipeprop.generic_replay("C10", oracle)
+def _replay_oracle(ctx, case, res, real):
+    oracle(ctx, case, res, real)
+    stepwise_oracle(ctx, dict(case, stepwise=True), real)
+
+
+replay = pipeprop.generic_replay("C10", _replay_oracle)
